@@ -31,6 +31,7 @@ def plan(tier, seed):
     specs += shards("noisy_reused", 2000 if q else 100000, 500 if q else 5000, seed)
     specs += shards("noisy_tables", 2500 if q else 100000, 500 if q else 5000, seed)
     specs += shards("noisy_stretched", 2500 if q else 100000, 500 if q else 5000, seed)
+    specs += shards("noisy_dialects", 4000 if q else 160000, 500 if q else 5000, seed)
     specs += shards("faulted", 3000 if q else 150000, 300 if q else 5000, seed)
     specs += [{"family": "corpus", "seed": seed, "n": 1}]
     return specs
@@ -141,11 +142,21 @@ def run_shard(spec, M):
     fam, seed = spec["family"], spec["seed"]
     if fam == "pairs":
         run_pairs(spec, M)
-    elif fam in ("noisy", "noisy_long", "noisy_tables", "noisy_reused", "noisy_stretched"):
+    elif fam in ("noisy", "noisy_long", "noisy_tables", "noisy_reused", "noisy_stretched", "noisy_dialects"):
         env = ReusedEnv(rng(seed, ID, "reuse", spec["shard"])) if fam == "noisy_reused" else None
         for i in range(spec["start"], spec["start"] + spec["n"]):
             r = rng(seed, ID, fam, i)
             L = noisy.gen_tables(r) if fam == "noisy_tables" else noisy.gen_stretched(r) if fam == "noisy_stretched" else noisy.gen(r, 30 if fam == "noisy" else 90)
+            if fam == "noisy_dialects":
+                # the same kind of document in every dialect of the language table, with any of its listed keywords
+                from .. import dialects as _dl
+                names = [n for n in sorted(_dl.master()) if n != "en"]
+                d = names[i % len(names)]
+                L = noisy.translate(noisy.gen_tables(r, 16) if i % 3 == 0 else noisy.gen(r, 20), d, r)
+                if L is None:
+                    M.count("noisy_dialects.skipped_ambiguous")
+                    continue
+                M.hist("noisy_dialects", d)
             nl = r.choice(["\n", "\n", "\r\n"])
             text = noisy.text_of(L, nl=nl, final=r.random() < 0.8 or noisy.pl_of(L[-1][1]).text == "")
             if env is not None:
